@@ -23,7 +23,7 @@ Emits(rr) ==
          /\ EmitCase("lax.compose", P, [f |-> rr[1], g |-> rr[2]]) /\ EmitCase("lax.lax_compose", P, [f |-> rr[1], g |-> rr[2]])
          /\ EmitCase("lax.tensor_assign", P, [pre |-> rr[1], g |-> rr[2]]) /\ EmitCase("lax.append", P, [pre |-> rr[1], g |-> rr[2]])
          /\ EmitCase("lax.h.coproduct_assign", P, [pre |-> rr[1], g |-> rr[2]])
-         /\ (rr[1] = rr[2] => EmitCase("lax.compose_shr", P, [f |-> rr[1], g |-> rr[2]]))
+         /\ EmitCase("lax.compose_shr", P, [f |-> rr[1], g |-> rr[2]])
     [] kind = "sing" -> /\ \A x \in EL : EmitCase("lax.singleton", P, [x |-> x, a |-> rr[1], b |-> rr[2]]) /\ EmitCase("strict.singleton", P, [x |-> x, a |-> rr[1], b |-> rr[2]])
                         \* identity, symmetry and spiders of the lax representation strictify to the strict ones
                         /\ EmitCase("lax.twist", P, [a |-> rr[1], b |-> rr[2]]) /\ EmitCase("strict.twist", P, [a |-> rr[1], b |-> rr[2]])
